@@ -117,6 +117,7 @@ class World:
         self.markers = {}
         self.attrs = {}
         self.ids = []
+        self.last_create = None
         self.focus = None        # (side, key) of an order being worked on repeatedly
         self.focus_left = 0
         self.accounts = []
@@ -184,7 +185,7 @@ class World:
             m = rng.choice(["R", "U", None, None])
             if m and rng.random() < 0.15:
                 # same marker type, other fields (required attributes, life-cycle status): the contract looks at the type only
-                m = rng.choice(["Ra", "Rp", "Rc", "Rd"] if m == "R" else ["Ua", "Ud"])
+                m = rng.choice(["Ra", "Rp", "Rc", "Rd"] if m == "R" else ["Ua", "Ud", "E"])
             if m:
                 self.markers[d] = m
         execs = rng.sample(self.accounts, rng.randint(1, 2))
@@ -217,7 +218,11 @@ class World:
                 enc("admin"), enc(f["name"]), enc(f["base"]), lst(f["conv"]), lst(f["quotes"]), lst(f["apprs"]),
                 lst(f["execs"]), opt(f["afr"]), opt(f["afa"]), opt(f["bfr"]), opt(f["bfa"]), lst(aat), lst(bat),
                 f["p"], f["inc"])
-        good = dict(name="ats", base="base", conv=conv, quotes=quotes, apprs=apprs, execs=execs, afr=afr, afa=afa,
+        if rng.random() < 0.03:
+            quotes = quotes + [rng.choice(["q" * 128, "q" * 127, "q" * 129])]      # names at the length limit of a denomination
+        if rng.random() < 0.03:
+            conv = conv + [rng.choice(["c" * 128, "c" * 127])]
+        good = dict(name=rng.choice(["ats"] * 12 + [" ", "\t", "  ats  "]), base="base", conv=conv, quotes=quotes, apprs=apprs, execs=execs, afr=afr, afa=afa,
                     bfr=bfr, bfa=bfa, p=p, inc=inc)
         # instantiate messages one step away from coherent (each refused or accepted on its own merits)
         for _ in range(rng.choice([0, 0, 1, 2, 3])):
@@ -555,7 +560,7 @@ class World:
                 choices.append(f)
         f = rng.choice(choices)
         if f == "sender":
-            pool = self.accounts + c.executors + c.approvers + ["mallory", "cosmos2contract"]
+            pool = self.accounts + c.executors + c.approvers + ["mallory", "cosmos2contract", "admin", "admin"]
             for fi in (c.ask_fee, c.bid_fee):
                 if fi:
                     pool.append(fi[0])
@@ -596,6 +601,9 @@ class World:
                                                  2 ** 64 - r[f], 2 ** 32 * c.increment]))
         elif f == "price":
             p = c.precision
+            if "." in r["price"] and rng.random() < 0.25:
+                r["price"] = r["price"].replace(".", rng.choice([",", ",", " .", ". ", "·"]))
+                return r
             r["price"] = rng.choice(["0", "-1", "", "abc", "1e3", "1." + "0" * (p) + "1", ".5", "5.", "1_0",
                                      "0." + "0" * p + "5", "-0", "+0.0", r["price"] + "1", "1" + r["price"],
                                      "79228162514264337593543950336", "0.0000000000000000000000000001",
@@ -636,7 +644,7 @@ class World:
         kind = rng.choices([k for k, _ in w], [x for _, x in w])[0]
         if kind == "env":
             d = rng.choice(list(self.markers.keys()) + ["base", "qa", "cva"])
-            m = rng.choice(["R", "U", None, "Ra", "Rc", "Rp", "Ua"])
+            m = rng.choice(["R", "U", None, "Ra", "Rc", "Rp", "Ua", "E"])
             if m:
                 self.markers[d] = m
             else:
@@ -654,6 +662,14 @@ class World:
                 i = id_variant(i, rng)
             self.send(rng.choice(["QUERY get_ask " + enc(i), "QUERY get_bid " + enc(i),
                                   "QUERY get_contract_info", "QUERY get_version_info"]))
+            return
+        if self.last_create is not None and rng.random() < 0.03:
+            self.send("EXEC " + self.last_create)          # the very same creation again, funds included
+            return
+        if rng.random() < 0.006:
+            # a migration in the middle of an ordinary history (the approver list rewritten without looking at the book)
+            ap = rng.choice([None, [], rng.sample(self.accounts, rng.randint(1, 2)), list(self.cfg.approvers[1:])])
+            self.send("MIGRATE %s - - - - - -" % optlist(ap))
             return
         r = None
         focused = False
@@ -676,7 +692,10 @@ class World:
         before_a = {k: (a.size, a.cls) for k, a in self.asks.items()}
         before_b = {k: (b.acc_base, b.acc_quote, b.acc_fee) if isinstance(b, fmt.Bid) else None
                     for k, b in self.bids.items()}
-        b = self.send("EXEC " + self.render(r))
+        line = self.render(r)
+        b = self.send("EXEC " + line)
+        if b.ok and r["kind"] in ("create_ask", "create_bid"):
+            self.last_create = line
         named = [r[f] for f in ("id", "ask_id", "bid_id") if f in r]
         for i in named:
             if i not in self.ids:
@@ -731,7 +750,8 @@ def migration_history(w, hn):
         # half of the migration histories start inside the conversion window; the others at and around every
         # threshold and at malformed version strings
         ver = rng.choice(["0.16.2", "0.16.3", "0.17.0", "0.18.2", "0.19.0", "0.19.0", "0.19.0+hotfix.1", "0.18.2+b"]) if rng.random() < 0.5 else rng.choice(VERSIONS)
-        w.send("SEEDVER %s %s" % (enc("ats_smart_contract"), enc(ver)))
+        definition = "ats_smart_contract" if rng.random() < 0.85 else rng.choice(["def", "ats-smart-contract", "other_contract", ""])
+        w.send("SEEDVER %s %s" % (enc(definition), enc(ver)))
     # seeded orders, some under legacy un-hyphenated ids
     def legacy_id():
         i = new_uuid(rng)
@@ -747,11 +767,13 @@ def migration_history(w, hn):
         size = inc * rng.randint(1, 5)
         base = rng.choice(["base", "base", "cva"])
         cls = "basic" if base == "base" else rng.choice(
-            ["pending", "ready:%s:base:%d" % (enc(w.accounts[0]), size)])
+            ["pending", "ready:%s:base:%d" % (enc(w.accounts[0]), size),
+             # a book carried over from a release that left the approver amount stale after a partial reject
+             "ready:%s:base:%d" % (enc(w.accounts[0]), size + inc * rng.randint(1, 3))])
         w.send("SEEDASK %s %s %s %s %s qa %s %d" % (enc(i), enc(i), enc(rng.choice(w.accounts)), cls, base,
                                                      enc(price_str(rng.choice([2, 5, 10]), p, rng)), size))
         w.ids.append(i)
-    for _ in range(rng.randint(1, 4)):
+    for _ in range(rng.randint(1, 4) if rng.random() > 0.03 else rng.randint(105, 140)):
         i = legacy_id()
         lots = rng.randint(2, 8)
         size = inc * lots
